@@ -95,6 +95,7 @@ def run(ctx: Ctx) -> None:
     _memo.rule_isinstance_on_class(ctx, ['graphiq/backends/density_matrix/compiler.py', 'graphiq/backends/stabilizer/compiler.py', 'graphiq/backends/compiler_base.py', 'graphiq/backends/density_matrix/state.py', 'graphiq/backends/stabilizer/state.py', 'graphiq/backends/density_matrix/functions.py'])
     _memo.rule_zip_truncation(ctx, ['graphiq/backends/density_matrix/compiler.py', 'graphiq/backends/stabilizer/compiler.py', 'graphiq/backends/compiler_base.py', 'graphiq/backends/density_matrix/state.py', 'graphiq/backends/stabilizer/state.py', 'graphiq/backends/density_matrix/functions.py'])
     _memo.rule_search_fallthrough(ctx, ['graphiq/backends/density_matrix/compiler.py', 'graphiq/backends/stabilizer/compiler.py', 'graphiq/backends/compiler_base.py', 'graphiq/backends/density_matrix/state.py', 'graphiq/backends/stabilizer/state.py', 'graphiq/backends/density_matrix/functions.py'])
+    _memo.rule_zip_pairing(ctx, ['graphiq/backends/density_matrix/compiler.py', 'graphiq/backends/stabilizer/compiler.py', 'graphiq/backends/compiler_base.py', 'graphiq/backends/density_matrix/state.py', 'graphiq/backends/stabilizer/state.py', 'graphiq/backends/density_matrix/functions.py'])
     repo = ctx.repo
     pos = hooks.hook_positions(repo)
     mcr = repo.cls("MeasurementCNOTandReset", hooks.OPS)
